@@ -1,6 +1,6 @@
 ---- MODULE MC_ConfigRoundTrip ----
 EXTENDS ConfigRoundTrip
-Shapes == {"plain", "padded", "inner", "empty"}
+Shapes == {"plain", "padded", "inner", "empty", "number"}
 Tok == [shape : Shapes, id : 1..2]
 Vals == {<<>>} \cup {<<t>> : t \in Tok} \cup {<<a, b>> : a \in Tok, b \in [shape : Shapes, id : {2}]}
 Scal == {<<[shape |-> "plain", id |-> 1]>>, <<[shape |-> "plain", id |-> 2]>>}
